@@ -940,7 +940,58 @@ Inductive cbody :=
 Inductive cloop := LMemcpy | LSwap | LCall | LInline | LUnrec.
 Inductive cdir := Put | Get.
 Record cfun := mkF { f_dir : cdir; f_pad : bool; f_x : xty; f_i : cty; f_loop : cloop; f_body : cbody }.
+
+(* request-level code around the conversion (fixed declarations; the three definitions at the end of the
+   file are translated from ncmpio_wait.c, ncmpio_varn.c and dispatchers/var_getput.c as built):
+   req_commit, loop over the completed GET requests, after err = ncmpio_unpack_xbuf(...):
+     GateOwn    : if (err) { if (req->status && *req->status == NC_NOERR) *req->status = err;
+                             if (status == NC_NOERR) status = err; }
+     GateGlobal : if (err && status == NC_NOERR) { if (req->status) *req->status = err; status = err; }
+   ncmpio_{put,get}_varn after err = ncmpio_i{put,get}_varn(...):
+     VarnEarlyAny   : if (err != NC_NOERR && independent) return err;        (the queued request is not waited for)
+     VarnEarlyFatal : if (err != NC_NOERR && err != NC_ERANGE && independent) return err;
+   ncmpi_m{put,get}_var*: loop posting one request per variable:
+     MputBreakAny : if (err != NC_NOERR) break;  then wait for the i requests posted BEFORE the failing one *)
+Inductive gate_kind := GateOwn | GateGlobal | GateUnrec.
+Inductive varn_kind := VarnEarlyAny | VarnEarlyFatal | VarnUnrec.
+Inductive mput_kind := MputBreakAny | MputUnrec.
 """
+
+
+def strip_comments(t):
+    return re.sub(r'/\*.*?\*/', '', t, flags=re.S)
+
+
+def request_level(libdir):
+    """(gate, varn, mput) constructor names from the sources as built; unknown text -> *Unrec"""
+    G = os.path.join(libdir, 'gen', 'src')
+    def rd(p):
+        try:
+            return norm(strip_comments(open(os.path.join(G, p), errors='replace').read()))
+        except OSError:
+            return ''
+    w = rd('drivers/ncmpio/ncmpio_wait.c')
+    gate = 'GateUnrec'
+    m = re.findall(r'lead_req->buf,lead_req->xbuf\);(if\(err.*?)if\(fIsSet\(lead_req->flag,NC_REQ_XBUF_TO_BE_FREED\)\)', w)
+    if len(m) == 1:
+        blk = m[0]
+        if blk == 'if(err!=NC_NOERR){if(lead_req->status!=NULL&&*lead_req->status==NC_NOERR)*lead_req->status=err;if(status==NC_NOERR)status=err;}':
+            gate = 'GateOwn'
+        elif blk == 'if(err!=NC_NOERR&&status==NC_NOERR){if(lead_req->status!=NULL)*lead_req->status=err;status=err;}':
+            gate = 'GateGlobal'
+    # the status words are reset by extract_reqs and the get queue is kept in posting order
+    if 'statuses[i]=NC_NOERR;' not in w:
+        gate = 'GateUnrec'
+    v = rd('drivers/ncmpio/ncmpio_varn.c')
+    a = len(re.findall(r'if\(err!=NC_NOERR&&fIsSet\(reqMode,NC_REQ_INDEP\)\)return err;\}status=ncmpio_wait\(ncdp,1,&reqid,NULL,reqMode\);return\(err!=NC_NOERR\)\?\s*err\s*:\s*status;', v))
+    b = len(re.findall(r'if\(err!=NC_NOERR&&err!=NC_ERANGE&&fIsSet\(reqMode,NC_REQ_INDEP\)\)return err;\}status=ncmpio_wait\(ncdp,1,&reqid,NULL,reqMode\);return\(err!=NC_NOERR\)\?\s*err\s*:\s*status;', v))
+    varn = 'VarnEarlyAny' if (a, b) == (2, 0) else 'VarnEarlyFatal' if (a, b) == (0, 2) else 'VarnUnrec'
+    d = rd('dispatchers/var_getput.c')
+    posts = len(re.findall(r'pncp->driver->i(?:put|get)_var\(pncp->ncp,varids\[i\]', d))
+    brk = len(re.findall(r'&reqs\[i\],reqMode\);(?:NCI_Free\((?:start|count)\);)?if\(err!=NC_NOERR\)break;\}status=pncp->driver->wait\(pncp->ncp,i,reqs,NULL,reqMode\);NCI_Free\(reqs\);return\(err!=NC_NOERR\)\?\s*err\s*:\s*status;', d))
+    mput = 'MputBreakAny' if posts > 0 and posts == brk else 'MputUnrec'
+    return gate, varn, mput
+
 def zs(z):
     return '(%d)' % z if z < 0 else '%d' % z
 
@@ -975,7 +1026,7 @@ def coq_entry(e):
                                             e['X'], ICTY[e['I']], e['loop'], body)
 
 
-def emit(table, out):
+def emit(table, out, rl=('GateUnrec', 'VarnUnrec', 'MputUnrec')):
     L = [PREAMBLE]
     for e in table:
         if e['why']:
@@ -985,13 +1036,19 @@ def emit(table, out):
     L.append('].')
     L.append('')
     L.append('Definition ncx_unrecognised : nat := %d.' % sum(1 for e in table if e['kind'] == 'BUnrec'))
+    L.append('')
+    L.append('Definition req_gate : gate_kind := %s.' % rl[0])
+    L.append('Definition varn_gate : varn_kind := %s.' % rl[1])
+    L.append('Definition mput_gate : mput_kind := %s.' % rl[2])
     open(out, 'w').write('\n'.join(L) + '\n')
 
 
 if __name__ == '__main__':
     lib, out = sys.argv[1], sys.argv[2]
     tb = build_table(lib)
-    emit(tb, out)
+    rl = request_level(lib)
+    emit(tb, out, rl)
+    print('tr_ncx: request level: %s %s %s' % rl)
     bad = [e for e in tb if e['kind'] == 'BUnrec']
     print('tr_ncx: %d functions, %d unrecognised' % (len(tb), len(bad)))
     for e in bad[:20]:
